@@ -278,8 +278,9 @@ class CoordinateComponent(Component):
 
             # Some views, e.g. with lists of integer arrays, can give arbitrarily
             # complex (copied) subsets of arrays, so in this case we don't do any
-            # optimization
-            if view is Ellipsis:
+            # optimization. A single array (a boolean mask or index array) is
+            # one index, not a sequence of indices for each dimension.
+            if view is Ellipsis or isinstance(view, np.ndarray):
                 optimize_view = False
             else:
                 for v in view:
